@@ -276,6 +276,10 @@ fn core_gauge(core: &Core) -> impl Fn() -> i64 + '_ {
     }
 }
 
+pub fn gen_ops_pub(rng: &mut Rng, nflows: usize, t: u64, n: usize) -> Vec<Op> {
+    gen_ops(rng, nflows, t, n)
+}
+
 fn gen_ops(rng: &mut Rng, nflows: usize, t: u64, n: usize) -> Vec<Op> {
     // a history concentrates on a few flows so that reuse, expiry and mixing actually happen
     let k = rng.range(1, 4) as usize;
